@@ -293,6 +293,7 @@ def extra_checks(ctx):
         sp = importlib.util.spec_from_file_location("c11_foreign_parent", fpath)
         ff = importlib.util.module_from_spec(sp)
         sp.loader.exec_module(ff)
+        n_foreign = 0
         for reverse in (True, False):
             css = CombinatorialSpecificationSearcher(
                 AvoidingWithPrefix("", ["aa", "bb"], ["a", "b"]), ff.pack(), ruledb=RuleDBForest(reverse=reverse)
@@ -318,11 +319,21 @@ def extra_checks(ctx):
             ex3 = ForestRuleExtractor(css.start_label, css.ruledb, css.classdb, css.strategy_pack)
             cmp_res = FR.compare_real_search(css, ex3, "foreign-parent word pack reverse=%s" % reverse)
             res.extend(cmp_res)
-            res.append(("foreign-parent word universe (open finding), reverse=%s: %d key(s) not re-created, model agrees: %s"
-                        % (reverse, nf, not cmp_res), True, "%d not found" % nf))
-    res.append(("every extracted key of %d real forest searches is re-created by _find_rule" % n, True, "%d keys" % n))
-    res.append(("model of _find_rule / rules() agrees with the implementation on %d shipped word universes "
-                "(tabulated as strategy tables)" % n_tab, True, "%d searches" % n_tab))
+            # the finding is FIXED (587ab8a): every extracted key of this universe must be re-created
+            res.append(("foreign-parent word universe (finding fixed by 587ab8a), reverse=%s: %d key(s) not re-created, "
+                        "model agrees: %s" % (reverse, nf, not cmp_res), nf == 0,
+                        "%d not found%s" % (nf, "" if nf == 0 else " - failing input: findings/c11_find_rule_foreign_parent.py "
+                                            "pack on words avoiding aa, bb, reverse=%s" % reverse)))
+            n_foreign += 1
+        # coverage: both searches of the fixed finding's universe must reach a specification (else nothing was replayed)
+        res.append(("foreign-parent word universe: both searches (reverse=True/False) find a specification",
+                    n_foreign == 2, "%d of 2" % n_foreign))
+    # (mismatches / keys not re-created were appended above as failures; these two are COVERAGE requirements)
+    res.append(("every extracted key of real forest searches is re-created by _find_rule: >= %d keys replayed"
+                % (4 * len(pats_list)), n >= 4 * len(pats_list), "%d keys" % n))
+    res.append(("model of _find_rule / rules() compared with the implementation on all %d shipped word searches "
+                "(tabulated as strategy tables)" % (2 * len(pats_list)), n_tab == 2 * len(pats_list),
+                "%d searches agree" % n_tab))
     from harness import gen_selftest
 
     res.append(FR.strict_agreement(ctx.cases, ctx.impl_res))
@@ -399,4 +410,9 @@ LEVEL_NOTE = (
 # translator tie (DESIGN.md 10.9): what the regenerated definitions add to the level
 LEVEL_NOTE += (
     " The bucket order ForestRuleExtractor.MINIMIZE_ORDER is RE-TRANSLATED from forest.py on every run (buckets numbered as in the model and the harness) and the model's `minimize` is proved to be the loop `for key in MINIMIZE_ORDER: _minimize_key(key)` over that constant (C11_minimize_order_is_source; Forest/GenBridgeExtractor.v)."
+)
+
+# strengthening of the oracles (CLAUSES.md G.1 item 10)
+RULE += (
+    " Extra checks that can fail: every extracted key of the foreign-parent word universe (finding fixed by 587ab8a) must be re-created; the strict-agreement comparison must have a sample of >= 100 found searches; a _find_rule failure is excused as cache poisoning only if the TABLE really breaks pe_contract / sym_contract (C04's predicates), not on cache-write evidence alone."
 )
